@@ -1064,3 +1064,42 @@ def rule_line_kinds(ctx, crate, rule="R-LINE-KIND-OWNERS"):
             ctx.check(ok, rule, "println-builds:%s" % v, b.name, loc, "println output is built as Text/Empty rows",
                       "a LineType::%s row is built in %s (outside the bar renderer and the println paths)" % (v, owner), cfg)
     ctx.floor(rule, n, 5, cfg, "LineType constructions")
+
+
+def rule_shift_full_frame(ctx, crate, rule="R-SHIFT-FULL-FRAME"):
+    """Bottom alignment: the rows written as padding above the frame are `previous rows - rows of the WHOLE new frame`
+    (text lines included: printed text takes over vacated rows). The value compared with / subtracted from the previous row
+    count under the Bottom edge is visual_line_count over all lines — not a count over a filtered subset."""
+    cfg = crate.config
+    b = the_emitter(ctx, crate, rule)
+    if not b:
+        return
+    p = count_param(b)
+    n = 0
+    for vs, reg, sb, pl in K.variant_regions(b, crate, "multi::MultiProgressAlignment"):
+        if vs != {"Bottom"}:
+            continue
+        # comparisons / subtractions in the Bottom region involving the previous row count
+        for c in b.calls(r"std::cmp::PartialOrd::(lt|le|gt|ge)", r"std::ops::Sub::sub"):
+            if c.bb not in reg and not any(x in reg for x in b.succ(c.bb)):
+                continue
+            sls = [b.slice_args(c, [k]) for k in range(len(c.args))]
+            if not any(p in sl.locals for sl in sls):
+                continue
+            for sl in sls:
+                if p in sl.locals:
+                    continue
+                n += 1
+                full = sl.has_call(r"draw_target::DrawState::visual_line_count", r"draw_target::visual_line_count")
+                filtered = sl.has_call(r"std::iter::Iterator::(filter|filter_map|skip|skip_while|take|take_while|step_by)") or \
+                    any(a[0] == "closure" for a in sl.atoms) and not full
+                rng_ok = True
+                for vc in sl.calls:
+                    if vc.matches(r"draw_target::DrawState::visual_line_count"):
+                        ta = " ".join(vc.callee.get("targs") or []) + (vc.callee.get("generic_full") or "")
+                        rng_ok = rng_ok and "RangeFull" in ta
+                ctx.check(full and rng_ok and not filtered, rule, "%s-operand" % K.meth(c.path), b.name, c.loc(),
+                          "the new height used for the Bottom-alignment shift is the wrap-aware height of all lines of the frame",
+                          "the Bottom-alignment shift is computed from a subset of the frame's lines (text rows are not counted): padding is written above printed "
+                          "text and the next redraw erases it", cfg)
+    ctx.floor(rule, n, 1, cfg, "uses of the new frame height under MultiProgressAlignment::Bottom")
